@@ -273,6 +273,37 @@ func runFaultStream(seed int64, n int, out, backendSpec, tier string) *RunReport
 			}
 		}
 	}
+	// a batch larger than what one badger transaction accepts: refused as a whole, nothing of it may stay
+	for _, be := range backendsOf(backendSpec) {
+		if be != "badger" {
+			continue
+		}
+		env, err := newEnv(be)
+		if err != nil {
+			continue
+		}
+		env.db.CreateCollection("huge")
+		env.db.Insert("huge", d.NewDocumentOf(scaleDoc(1)))
+		before, _ := dumpStore(env.st.inner)
+		docs := make([]*d.Document, 72)
+		pad := strings.Repeat("x", 200000)
+		for i := range docs {
+			m := scaleDoc(100 + i)
+			m["pad"] = pad
+			docs[i] = d.NewDocumentOf(m)
+		}
+		docs[71] = d.NewDocumentOf(scaleDoc(1)) // and its last document is a duplicate
+		err = env.db.Insert("huge", docs...)
+		after, _ := dumpStore(env.st.inner)
+		evals++
+		if err == nil {
+			f.failf("a 14 MB batch ending in a duplicate id was accepted on badger")
+		} else if len(after.([]T)) != len(before.([]T)) {
+			f.failf("a 14 MB batch failed (%v) on badger but left %d keys behind (%d before)", err, len(after.([]T)), len(before.([]T)))
+		}
+		distinct["hugebatch/badger"] = true
+		env.destroy()
+	}
 	files := cs.Write(out, "fault")
 	return &RunReport{Stream: "fault", Seed: seed, Evaluations: evals, Distinct: len(distinct),
 		Rule:         "one evaluation = one operation executed from a generated state with one store-call position failing (or none), result and full raw key space compared with the model and checked directly (error => unchanged, fault => error, follow-up write succeeds); distinct = distinct (operation kind, kind of failing call, result class)",
